@@ -74,6 +74,7 @@ def tasks(tier):
     ts += [{"what": "string(bytes(s))", "n": n} for n in range(0, smax + 1)]
     ts += [{"what": "string(bytes)", "n": n} for n in range(1, bmax + 1)]
     ts += [{"what": "bytes(string)", "n": n} for n in range(0, smax + 1)]
+    ts += [{"what": f"{t}(text)", "n": n} for t in ("int", "uint") for n in range(0, smax + 1)]
     return ts
 
 
@@ -91,6 +92,61 @@ def _harness(task, runner):
 
     def W(vals, **kw):
         return {"check": "c10.conversion", "args": enc({"what": what, "runner": runner, "vals": vals, **kw})}
+
+    if what in ("int(text)", "uint(text)"):
+        # text of n symbolic code points: a value exactly for an optional sign followed by ASCII decimal digits (then the spelled number,
+        # range-checked), an error for any other text -- underscores, blanks, non-ASCII digits, a lone sign, the empty text.  Hexadecimal
+        # `0x..` text is the library's own extension: nothing is asserted for texts that start like one.
+        target, n = what.split("(")[0], task["n"]
+        from ..sym.strs import SStr, mks
+        cs = [z3.Int(f"t_c{i}") for i in range(n)]
+        vars = {f"t_c{i}": c for i, c in enumerate(cs)} or {"dummy": z3.Int("dummy")}
+        pre = []
+        for c in cs:
+            pre += [c >= 0, c <= 0x10FFFF, z3.Not(z3.And(c >= 0xD800, c <= 0xDFFF))]
+        prog = common.make_program(f"{target}(t)", runner)
+        isd = lambda c: z3.And(c >= 48, c <= 57)  # noqa: E731
+        lo, hi = (MIN64, MAX64) if target == "int" else (0, MAXU64)
+
+        def spec():
+            """(parsable, value) for the digits-with-optional-sign reading; hexlike = starts like a 0x text"""
+            alts = []
+            if n >= 1:
+                v = z3.IntVal(0)
+                for c in cs:
+                    v = v * 10 + (c - 48)
+                alts.append((z3.And([isd(c) for c in cs]), v))
+            if n >= 2:
+                v = z3.IntVal(0)
+                for c in cs[1:]:
+                    v = v * 10 + (c - 48)
+                alts.append((z3.And([cs[0] == 43] + [isd(c) for c in cs[1:]]), v))
+                alts.append((z3.And([cs[0] == 45] + [isd(c) for c in cs[1:]]), -v))
+            ok = z3.Or([a for a, _ in alts]) if alts else z3.BoolVal(False)
+            val = z3.IntVal(0)
+            for a, v in alts:
+                val = z3.If(a, v, val)
+            hexlike = z3.BoolVal(False)
+            if n >= 2:
+                zx = lambda i: z3.And(cs[i] == 48, z3.Or(cs[i + 1] == 120, cs[i + 1] == 88))  # noqa: E731
+                hexlike = z3.Or(zx(0), z3.And(z3.Or(cs[0] == 45, cs[0] == 43), zx(1)) if n >= 3 else z3.BoolVal(False))
+            return ok, val, hexlike
+        OKT, VAL, HEX = spec()
+        fits = z3.And(VAL >= lo, VAL <= hi)
+        if target == "uint":
+            # a text with a minus sign is not the text of an unsigned number (also "-0")
+            OKT = z3.And(OKT, cs[0] != 45) if n >= 1 else OKT
+
+        def run(vals):
+            t = ct.StringType(mks(SStr, cs, "".join(chr(vals[f"t_c{i}"]) for i in range(n)))) if n else ct.StringType("")
+            kd, r = common.outcome(lambda: prog.evaluate({"t": t}))
+            if kd == "error":
+                return [Ob(f"C10/{target}(text)/error-only-unparsable-or-out-of-range@{runner}", z3.Or(HEX, z3.Not(z3.And(OKT, fits))))]
+            if kd != "value":
+                return [Ob(f"C10/{target}(text)/no-escape@{runner}", z3.BoolVal(False), note=f"{type(r).__name__}: {r}", tags={"exc": type(r).__name__})]
+            return [Ob(f"C10/{target}(text)/value-only-for-number-text@{runner}", z3.Or(HEX, z3.And(OKT, fits, tm(r) == VAL)),
+                       note="a value only for [+-]digits text (ASCII), and then the spelled number")]
+        return Harness(id=f"C10/{what}/{n}@{runner}", vars=vars, pre=pre or [z3.Int("dummy") == 0], run=run, witness=lambda vals: W(vals, n=n), max_paths=400)
 
     if what in ("int(double)", "uint(double)"):
         target = what.split("(")[0]
